@@ -10,6 +10,16 @@ from ..report import RuleResult
 from .common import exported_estimators, norm
 
 
+# The public attribute names are the documented API contract: <x>_label_dictionary_ maps labels to
+# indices, <x>_index_dictionary_ maps indices to labels (docstrings of every vectorizer).
+def declared_kind(attr: str) -> Optional[str]:
+    if attr.endswith("label_dictionary_") or attr == "_token_dictionary_" or attr == "_raw_ngram_dictionary_":
+        return L2I
+    if attr.endswith("index_dictionary_") or attr == "_inverse_token_dictionary_":
+        return I2L
+    return None
+
+
 def r6_1(repo: Repo) -> RuleResult:
     rr = RuleResult("R6.1", "dictionary orientation (label->index vs index->label) is the same at every assignment to a fitted attribute", floor=45)
     ke = KindEngine(repo)
@@ -28,8 +38,13 @@ def r6_1(repo: Repo) -> RuleResult:
                 continue
             seen.add(key)
             construct = "%s = %s" % (a, short(v, 40))
+            decl = declared_kind(a)
             if ref == "CONFLICT":
                 rr.bad(m, construct, "the fit path itself assigns both orientations to `%s`" % a, line)
+            elif decl is not None and k in (L2I, I2L) and k != decl:
+                names = {L2I: "label->index", I2L: "index->label"}
+                rr.bad(m, construct,
+                       "`%s` is documented as a %s dictionary but is assigned a %s mapping here" % (a, names[decl], names[k]), line)
             elif k in (L2I, I2L) and k != ref:
                 names = {L2I: "label->index", I2L: "index->label"}
                 rr.bad(m, construct,
